@@ -53,8 +53,11 @@ pub fn run(prop: &str, thorough: bool) -> Option<Report> {
 pub fn cfg_plain() -> Cfg {
     Cfg::base()
 }
+/// address lists present AND every log-macro argument evaluated (log level trace, no event
+/// logger): verbosity must never change behaviour, so the second configuration of every sweep
+/// exercises it for free
 pub fn cfg_lists() -> Cfg {
-    Cfg::base().with_self(&corpus::self_ips()).with_deny(&corpus::deny_ips())
+    Cfg::base().with_self(&corpus::self_ips()).with_deny(&corpus::deny_ips()).with_log(LoggerKind::None, Level::Trace)
 }
 
 /// Run a stateless single-frame sweep judged only by the always-on model monitor.
